@@ -27,6 +27,7 @@ RULE = (
     'letter. distinct = distinct strings / recipes.'
     ' Also (layer 2): the leaves of one pytree may have different dtypes (promotion judged per leaf).'
     ' Also (layer 2): pytrees of 9 and 12 leaves.'
+    ' Also (layer 2): complex (Gaussian-integer) block values on real leaves, transpose = unconjugated adjoint.'
 )
 ASSUMPTIONS = [
     'numpy.einsum is the specification of einsum; alphabet {h,i,j,k}; explicit mode with exactly two operands',
@@ -227,7 +228,9 @@ def op_case(draw, mode):
     if nleaves > 1 and draw(st.integers(0, 2)) == 0:
         pool_ = ['float32', 'int32'] + (['float64'] if mode == 'x64' else [])
         ldts = [draw(st.sampled_from(pool_)) for _ in range(nleaves)]
-    return {'kind': 'op', 'ldts': ldts, 's': s, 'default': default and draw(st.booleans()), 'half_blocks': draw(st.booleans()), 'leaves': leaves, 'blocks_shapes': blocks_shapes, 'per_leaf': per_leaf,
+    # complex block values (a complex response on real data): the transpose is the plain, unconjugated adjoint
+    cblocks = draw(st.integers(0, 4)) == 0
+    return {'kind': 'op', 'cblocks': cblocks, 'ldts': ldts, 's': s, 'default': default and draw(st.booleans()), 'half_blocks': draw(st.booleans()), 'leaves': leaves, 'blocks_shapes': blocks_shapes, 'per_leaf': per_leaf,
             'layout': layout, 'dtype': dt, 'seed': draw(st.integers(0, 50))}
 
 
@@ -297,12 +300,17 @@ def check(recipe, mode):
     S = _tree(recipe['layout'], [St.leaf(lf['xshape'], d_) for lf, d_ in zip(leaves, ldts)])
     order = sorted(range(len(leaves)), key=lambda t: ['b', 'a', 'c'][t]) if recipe['layout'] == 'dict' else list(range(len(leaves)))
     Bs = [_ints(tuple(bs), recipe['seed'] + 3 * t) for t, bs in enumerate(recipe['blocks_shapes'])]
+    cb = bool(recipe.get('cblocks'))
+    bdt = 'complex64' if cb else 'float32'
+    if cb:
+        # Gaussian integers: still exact in complex64 / complex128
+        Bs = [b + 1j * _ints(b.shape, recipe['seed'] + 3 * t + 101) for t, b in enumerate(Bs)]
     xs = [_ints(tuple(lf['xshape']), recipe['seed'] + 11 + t) for t, lf in enumerate(leaves)]
     if recipe['per_leaf']:
-        cont = _tree(recipe['layout'], [{'t': 'leaf', 'shape': list(b.shape), 'dtype': 'float32'} for b in Bs])
+        cont = _tree(recipe['layout'], [{'t': 'leaf', 'shape': list(b.shape), 'dtype': bdt} for b in Bs])
         blocks = St.build_value(cont, [Bs[t] for t in order])
     else:
-        blocks = jnp.asarray(Bs[0], jnp.float32)
+        blocks = jnp.asarray(Bs[0], bdt)
     if recipe.get('default'):
         op = must_not_raise('construct', D, blocks, St.to_jax(S))
     else:
@@ -310,10 +318,12 @@ def check(recipe, mode):
     sc = s.replace(' ', '')
     if recipe.get('half_blocks'):
         Bs = [b + 0.5 for b in Bs]  # non-integer coefficients: an integer leaf must be promoted, not the blocks truncated
-        blocks = St.build_value(cont, [Bs[t] for t in order]) if recipe['per_leaf'] else jnp.asarray(Bs[0], jnp.float32)
+        blocks = St.build_value(cont, [Bs[t] for t in order]) if recipe['per_leaf'] else jnp.asarray(Bs[0], bdt)
         op = D(blocks, St.to_jax(S)) if recipe.get('default') else D(blocks, St.to_jax(S), s)
     want = [np.einsum(sc, Bs[t] if recipe['per_leaf'] else Bs[0], xs[t]) for t in range(len(leaves))]
     odts = ['float32' if d_ == 'int32' else d_ for d_ in ldts]  # einsum of float32 blocks with an int32 leaf is float32
+    if cb:
+        odts = ['complex128' if d_ == 'float64' else 'complex64' for d_ in ldts]
     out_S = _tree(recipe['layout'], [St.leaf(w.shape, d_) for w, d_ in zip(want, odts)])
     declared = must_not_raise('out_structure', op.out_structure)
     if not St.same_structure(out_S, declared):
@@ -331,11 +341,14 @@ def check(recipe, mode):
     if not St.same_structure(out_S, T.in_structure()) or not St.same_structure(S_back, T.out_structure()):
         raise Violation('T-structure', f'{s!r}: structures of the transpose are not swapped')
     ys = [_ints(wt.shape, recipe['seed'] + 23 + t) for t, wt in enumerate(want)]
+    if cb:
+        ys = [y_ + 1j * _ints(y_.shape, recipe['seed'] + 57 + t) for t, y_ in enumerate(ys)]
     z = must_not_raise('T-mv', T.mv, St.build_value(out_S, [ys[t] for t in order]))
     if not St.same_structure(S_back, z):
         raise Violation('T-mv-structure', f'{s!r}: op.T(y) has structure {St.describe(z)}')
-    lhs = float(sum((want[t] * ys[t]).sum() for t in range(len(leaves))))
-    rhs = float(St.flat_of_value(z) @ np.concatenate([xs[t].reshape(-1) for t in order]))
+    # (bilinear pairing, no conjugation: .T is the transpose, also for complex blocks)
+    lhs = complex(sum((want[t] * ys[t]).sum() for t in range(len(leaves))))
+    rhs = complex(St.flat_of_value(z) @ np.concatenate([xs[t].reshape(-1) for t in order]))
     if lhs != rhs:
         raise Violation('adjoint-identity', f'{s!r}: <Ax,y>={lhs} but <x,A^T y>={rhs}')
     TT = must_not_raise('transpose-twice', lambda: T.T)
@@ -351,6 +364,8 @@ def check(recipe, mode):
         classes.append('batch_letter')
     if ' ' in s:
         classes.append('spaces')
+    if cb:
+        classes.append('complex_blocks')
     if 'int32' in ldts:
         classes.append('integer_leaves')
     if len(set(ldts)) > 1:
